@@ -73,3 +73,26 @@ def two_file_tasks(tier, prefix, kinds, race):
                                  'point %d..%s: each file must hold exactly its own objects' % (lvl, lo, hi if r < nranges else 'end'),
                             reach=('h_two_files:end',), bounds='3 objects per file; preemption bound 1', kinds=kinds))
     return out
+
+
+FOREIGN = open(os.path.join(os.path.dirname(os.path.abspath(__file__)), 'harness', 'c07_foreign.cpp')).read()
+
+
+def foreign_tasks(tier, prefix, kinds):
+    """read session over a valid file of another producer (no padding behind the last object), one preemption"""
+    out = []
+    width = 64
+    nranges = 8 if tier == 'quick' else 16
+    for nobj, cs in (((2, 4096),) if tier == 'quick' else ((2, 4096), (3, 60), (1, 4096))):
+        for r in range(nranges + 1):
+            lo = r * width
+            hi = (r + 1) * width if r < nranges else 10 ** 9
+            out.append(Task('%s_foreign.n%d_c%d.sync%d-%s' % (prefix, nobj, cs, lo, hi if r < nranges else 'end'),
+                            '#define VP_FS_CAP 8192\n#define NOBJ %d\n#define CFG_CONTAINER %d\n' % (nobj, cs) + FOREIGN, 'h_foreign', None,
+                            opts=dict(validate=False, extra=['zlib_stub.cpp'], limit_is_hang=True, max_steps=12000000, max_wall=1500,
+                                      enum_limit=400, preempt_bound=1, preempt_range=(lo, hi), preempt_in_cs=True),
+                            desc='read session over a valid file whose last object (%d AppText objects, sizes 53.., container size %d) '
+                                 'is not followed by padding, every schedule with one preemption at a synchronisation point %d..%s: '
+                                 'all objects, then end of file' % (nobj, cs, lo, hi if r < nranges else 'end'),
+                            reach=('h_foreign:end',), bounds='%d objects; preemption bound 1' % nobj, kinds=kinds))
+    return out
